@@ -174,6 +174,14 @@ def enumerate_pairs(tier, rng):
             T.append([x, W + 7.0 + y])
         yield S, T, "chain"
         yield T, S, "chain"
+    # persistences spanning 13 to 16 orders of magnitude: one huge bar shared by both diagrams (pairs with itself at cost 0) next to
+    # ordinary bars, which then decide the value - nothing may be treated as negligible relative to the largest bar
+    for _ in range(8 if tier == "quick" else 120):
+        big = [0.0, rng.choice([1e13, 1e15, 1e16])]
+        a = [p for p in rand_dgm(rng, rng.randint(1, 3), lattice=True) if p[1] > p[0]] or [[2.0, 3.0]]
+        b = [p for p in rand_dgm(rng, rng.randint(0, 2), lattice=True) if p[1] > p[0]]
+        pos = rng.randint(0, len(a))
+        yield a[:pos] + [list(big)] + a[pos:], b + [list(big)], "extreme-ratio"
     # infinite deaths at every position (first, between finite points, last, several, all), in either or both diagrams
     for _ in range(80 if tier == "quick" else 1500):
         lat = rng.random() < 0.5
